@@ -98,6 +98,18 @@ def _compatible(assume, pa, pb):
     return s.check() != z3.unsat
 
 
+def _same_raising(ob, ra, rb, assume, v, site):
+    """designs with rtl_assert raise by design: the two blocks raise on exactly the same inputs (and the same exception class);
+    returns the non-raising paths of both"""
+    def cond(rs, cls=None):
+        cs = [r.cond() for r in rs if r.exc is not None and (cls is None or type(r.exc) is cls)]
+        return z3.Or(*cs) if cs else z3.BoolVal(False)
+    classes = sorted({type(r.exc) for r in list(ra) + list(rb) if r.exc is not None}, key=lambda c: c.__name__)
+    for cls in classes:
+        ob.prove('same-exception-behaviour:%s' % cls.__name__, cond(ra, cls) == cond(rb, cls), assume, v, site=site + ':exception')
+    return [r for r in ra if r.exc is None], [r for r in rb if r.exc is None]
+
+
 def _ok_paths(ob, results, assume, v, site, what):
     """raising paths must be infeasible on legal inputs; returns the non-raising ones"""
     ok = []
@@ -123,8 +135,11 @@ def bmc_outputs(ob, pair, K, v, site, reg_init='reset', default_value=0, memkeyB
                      track='io', assumptions=assume, memmap_key=memkeyB,
                      inputs_override=lambda t: pair.b_inputs_sym(v, t))
     ob.paths += len(ra) + len(rb)
-    oka = _ok_paths(ob, ra, assume, v, site, 'A')
-    okb = _ok_paths(ob, rb, assume, v, site, 'B')
+    if A.rtl_assert_dict:
+        oka, okb = _same_raising(ob, ra, rb, assume, v, site)
+    else:
+        oka = _ok_paths(ob, ra, assume, v, site, 'A')
+        okb = _ok_paths(ob, rb, assume, v, site, 'B')
     from .props.c01 import prove_all
     for pa in oka:
         for pb in okb:
@@ -165,8 +180,11 @@ def inductive_step(ob, pair, v, site, memkeyB=None, assume=()):
         rb = run_sim(B, 1, v, reg_init=bregs, mem_init='sym', track='io', assumptions=assume,
                      memmap_key=memkeyB, inputs_override=lambda t: pair.b_inputs_sym(v, t))
     ob.paths += len(ra) + len(rb)
-    oka = _ok_paths(ob, ra, assume, v, site, 'A')
-    okb = _ok_paths(ob, rb, assume, v, site, 'B')
+    if A.rtl_assert_dict:
+        oka, okb = _same_raising(ob, ra, rb, assume, v, site)
+    else:
+        oka = _ok_paths(ob, ra, assume, v, site, 'A')
+        okb = _ok_paths(ob, rb, assume, v, site, 'B')
     from .props.c01 import prove_all
     for pa in oka:
         for pb in okb:
@@ -199,7 +217,12 @@ def replay_pair(pair, K, mv, reg_init='reset', default_value=0, memkeyB=None, ki
         ta, ma, sima = concrete.sim_concrete(A, K, mv, kind=kindA, reg_init=reg_init, mem_init='sym',
                                           default_value=default_value, track='io')
     except Exception as e:
-        return True, 'reference block raised %r' % (e,)
+        if not A.rtl_assert_dict:
+            return True, 'reference block raised %r' % (e,)
+        # a design with rtl_assert raises by design: the transformed block must raise the same way
+        ta, a_exc = None, e
+    else:
+        a_exc = None
     # B: drive through the pair's input mapping
     rmap, mmap = {}, {}
     if reg_init == 'sym':
@@ -222,7 +245,11 @@ def replay_pair(pair, K, mv, reg_init='reset', default_value=0, memkeyB=None, ki
         for t in range(K):
             simb.step(pair.b_inputs_concrete(mv, t))
     except Exception as e:
+        if a_exc is not None:
+            return type(e) is not type(a_exc), 'reference raised %r, transformed block raised %r' % (a_exc, e)
         return True, 'transformed block raised %s: %s (reference block simulated fine)' % (type(e).__name__, e)
+    if a_exc is not None:
+        return True, 'reference block raised %r, the transformed block simulated the same inputs without raising' % (a_exc,)
     tb = {w.name: list(tracer.trace[w.name]) for w in tracked}
     for aname in sorted(pair.out_map):
         for t in range(K):
